@@ -49,6 +49,26 @@ def do_replay(path, quiet=False):
     return batch.EXIT_OK
 
 
+def housekeeping():
+    """Remove scratch directories that a killed earlier run left behind (> 6 h old)."""
+    import shutil
+    import time
+
+    base = os.environ.get("EKOSIM_TMP") or os.environ.get("TMPDIR") or "/tmp"
+    try:
+        now = time.time()
+        for name in os.listdir(base):
+            if name.startswith("ekosim-"):
+                full = os.path.join(base, name)
+                try:
+                    if now - os.stat(full).st_mtime > 6 * 3600:
+                        shutil.rmtree(full, ignore_errors=True)
+                except OSError:
+                    pass
+    except OSError:
+        pass
+
+
 def main():
     ap = argparse.ArgumentParser()
     ap.add_argument("prop", nargs="?")
@@ -67,6 +87,7 @@ def main():
     ap.add_argument("--budget", type=float, default=None, help="wall-clock budget in seconds")
     args = ap.parse_args()
 
+    housekeeping()
     try:
         env.assert_eko_from_repo()
         if args.replay:
